@@ -15,10 +15,12 @@ EXTENDS MxjXml
 ErrNode == [k |-> "ERR", nm |-> NoName, at |-> <<>>, ch |-> <<>>, tx |-> <<>>]
 HasErr(ns) == \E i \in 1..Len(ns) : ns[i].k = "ERR"
 
-\* byte order of the characters the configs use
-CharOrder == <<"\t", "\n", "\r", " ", "!", "\"", "#", "%", "&", "'", "-", ".", "0", "1", "2", "3", "4", "5", "6", "7", "8", "9",
-               ":", ";", "<", "=", ">", "@", "A", "B", "C", "D", "E", "F", "K", "N", "T", "X", "[", "\\", "]", "_",
-               "a", "b", "c", "d", "e", "f", "g", "i", "k", "l", "m", "n", "o", "p", "q", "r", "s", "t", "u", "v", "w", "x", "y", "z", "{", "}", "~">>
+\* byte order of the printable ASCII characters (and tab, newline, carriage return)
+CharOrder == <<"\t", "\n", "\r", " ", "!", "\"", "#", "$", "%", "&", "'", "(", ")", "*", "+", ",", "-", ".", "/", "0", "1", "2", "3", 
+               "4", "5", "6", "7", "8", "9", ":", ";", "<", "=", ">", "?", "@", "A", "B", "C", "D", "E", "F", "G", "H", "I", "J", "K", 
+               "L", "M", "N", "O", "P", "Q", "R", "S", "T", "U", "V", "W", "X", "Y", "Z", "[", "\\", "]", "^", "_", "`", "a", "b", "c", 
+               "d", "e", "f", "g", "h", "i", "j", "k", "l", "m", "n", "o", "p", "q", "r", "s", "t", "u", "v", "w", "x", "y", "z", "{", 
+               "|", "}", "~">>
 CharRank(c) == CHOOSE i \in 1..Len(CharOrder) : CharOrder[i] = c
 RECURSIVE LexLess(_, _)
 LexLess(a, b) == IF a = <<>> THEN b # <<>>
